@@ -9,7 +9,7 @@ CONSTANTS
   MaxSched = 0
   MaxBad = 0
   MaxTimeouts = 6
-  MaxConnLost = 12
+  MaxConnLost = 1000
   MaxAttempts = 0
   Filter = FALSE
 CONSTRAINT HW
